@@ -36,6 +36,7 @@ func rulesC10(c *Ctx) {
 	ruleSessionFootprint(c)
 	ruleElectionWriters(c)
 	ruleRunElectionTable(c)
+	ruleStateWriters(c, append(append([]writerRow{}, writersServerElection...), writersServerSession...))
 }
 
 func rulesC11(c *Ctx) {
@@ -51,6 +52,7 @@ func rulesC11(c *Ctx) {
 	ruleEntryImmutability(c)
 	ruleElectionWriters(c)
 	ruleElectionAtomic(c)
+	ruleStateWriters(c, append(append(append([]writerRow{}, writersServerSession...), writersServerElection...), writersRIB...))
 	ruleAtomicUpdate(c, []string{"server", "rib"}, 0) // no guarded field is rewritten from a copy read under an earlier acquisition
 	// Flush holds the locks of all listed instances at once: it must take them in the order of the list it is
 	// given (callers pass one name or the sorted list), never in map-iteration order (shared with C08)
